@@ -95,7 +95,10 @@ def decode(d):
 
 def parts(tier):
     n = 3000 if tier == "quick" else 8000
-    return [core.Part("documents", "sampled", lambda: gen.cases(decode, 1024), budget=n)]
+    out = [core.Part("documents", "sampled", lambda: gen.cases(decode, 1024), budget=n)]
+    if tier == "thorough":
+        out.append(core.Part("atheris", "fuzz", {"corpus": "corpus/C10", "dict": "corpus/C10.dict", "runs": 40000, "max_len": 400}))
+    return out
 
 
 def apply_faults(doc, faults):
@@ -238,4 +241,81 @@ def check(case):
                 w["id"], kind, faults, text, ctext, present))
         i += 1
     o.nontrivial = len(want) >= 1
+    return o.ok()
+
+
+# ---- atheris target (thorough tier) --------------------------------------------------------------------------------
+# A fixed skeleton whose attribute values come from the fuzz bytes, so that coverage guidance reaches the value parsers
+# instead of dying in XML well-formedness.  The root and the last element (the sentinel) are never fuzzed: whatever the
+# other elements' attributes are, the parse must return and the sentinel must come out unchanged.
+
+FUZZ_FIELDS = [
+    ("g", "transform"), ("g", "fill"), ("g", "style"), ("r", "transform"), ("r", "x"), ("r", "width"), ("r", "rx"), ("r", "stroke-width"),
+    ("p", "d"), ("p", "transform"), ("p", "stroke"), ("u", "href"), ("u", "x"), ("u", "transform"), ("l", "points"), ("l", "fill"),
+    ("s", "viewBox"), ("s", "width"), ("s", "preserveAspectRatio"), ("c", "r"), ("c", "cx"),
+]
+
+
+def fuzz_decode(data):
+    if not data:
+        return None
+    parts = bytes(data).split(b"\xff")
+    fields = {}
+    for (el, attr), raw in zip(FUZZ_FIELDS, parts):
+        if raw[:1] == b"\x00" or not raw:
+            continue  # attribute absent
+        text = raw.decode("latin-1")
+        text = "".join(ch for ch in text if ch == "\t" or ch == "\n" or " " <= ch)  # XML 1.0 forbids most control characters
+        fields["%s.%s" % (el, attr)] = text
+    return {"fields": fields}
+
+
+def fuzz_document(fields):
+    from xml.sax.saxutils import quoteattr
+
+    def attrs(el):
+        out = []
+        for k, v in fields.items():
+            e, a = k.split(".", 1)
+            if e == el:
+                out.append(" %s=%s" % ("xlink:href" if a == "href" else a, quoteattr(v)))
+        return "".join(out)
+
+    return (
+        '<svg xmlns="http://www.w3.org/2000/svg" xmlns:xlink="http://www.w3.org/1999/xlink" width="100" height="100">'
+        '<g id="g1"%s><rect id="r1" y="1" height="2"%s/><path id="p1"%s/></g>'
+        '<use id="u1"%s/><polyline id="l1"%s/><svg id="s1"%s><circle id="c1"%s/></svg>'
+        '<rect id="sentinel" x="1" y="2" width="3" height="4" fill="red" stroke="blue" stroke-width="2"/></svg>'
+    ) % (attrs("g"), attrs("r"), attrs("p"), attrs("u"), attrs("l"), attrs("s"), attrs("c"))
+
+
+def fuzz_check(case):
+    se = lib.L()
+    o = core.Obs()
+    text = fuzz_document(case["fields"])
+    o.label("fault:fuzz")
+    try:
+        with core.time_limit(30):
+            svg = se.SVG.parse(io.StringIO(text))
+    except core.Timeout:
+        return o.violation("hang:fuzz", "SVG.parse did not return within 30 s\n  document: %s" % text)
+    except RecursionError as e:
+        return o.violation("raises:RecursionError@%s" % (core.library_frame(e.__traceback__) or "?"), "document: %s" % text)
+    except Exception as e:
+        where = core.library_frame(e.__traceback__)
+        if where is None:
+            raise
+        if isinstance(e, ValueError) and where == "__iadd__" and any(u in text for u in ("in", "mm", "cm")):
+            return o.known("KF-TRANSFORM-MIXED-UNITS", "SVG.parse raised ValueError for %s" % text)
+        return o.violation("raises:%s@%s" % (type(e).__name__, where), "SVG.parse raised %s: %s\n  document: %s" % (type(e).__name__, str(e)[:100], text))
+    shapes = [e for e in svg.elements() if isinstance(e, se.Rect) and e.id == "sentinel"] if svg is not None else []
+    if len(shapes) != 1:
+        return o.violation("sibling-missing:fuzz", "the sentinel after the faulty elements is rendered %d times\n  document: %s" % (len(shapes), text))
+    s = shapes[0]
+    bb = s.bbox()
+    fill = None if s.fill is None else s.fill.value
+    stroke = None if s.stroke is None else s.stroke.value
+    if bb is None or any(abs(a - b) > 1e-9 for a, b in zip(bb, (1.0, 2.0, 4.0, 6.0))) or fill != 0xFF0000FF or stroke != 0x0000FFFF or abs(s.stroke_width - 2.0) > 1e-9:
+        return o.violation("sibling-changed:fuzz", "the sentinel came out as bbox %r fill %r stroke %r width %r\n  document: %s" % (bb, fill, stroke, s.stroke_width, text))
+    o.nontrivial = len(case["fields"]) >= 1
     return o.ok()
